@@ -219,12 +219,21 @@ def rule_noshadow(ctx: Ctx):
             for m in ms:
                 if m.name == "__init__":
                     continue
-                for node in own_nodes(m.node):
-                    if isinstance(node, (ast.Assign, ast.AnnAssign, ast.AugAssign)):
-                        tg = node.targets if isinstance(node, ast.Assign) else [node.target]
-                        for t in tg:
-                            if isinstance(t, ast.Attribute) and isinstance(t.value, ast.Name) and t.value.id == "self" and t.attr != k.queue_attr:
-                                rep.violation("C10.noshadow", m.loc(node), f"engine attribute `self.{t.attr}` assigned while processing", m.key, norm_stmt(node))
+                if isinstance(m.node, ast.Lambda) or ctx.is_new(m):
+                    continue
+                seen_e = set()
+                for p in ctx.paths(m, inline=None, exc_edges="none", unroll=1):
+                    for e in p.of("store"):
+                        attr = e.x.get("attr")
+                        if not attr or show(e.term.value) != "self" or attr == k.queue_attr or (attr, e.line) in seen_e:
+                            continue
+                        seen_e.add((attr, e.line))
+                        # an engine may remember things (e.g. the trigger it queued); what it must not keep is a copy of the state
+                        v = xshow(e.x["value"], p.events)
+                        from_state = any(w in v for w in ("current_state", "state_field", ".model", "states_map", ".state"))
+                        rep.check(not from_state, "C10.noshadow", e.loc(),
+                                  f"engine attribute `self.{attr}` assigned outside the constructor does not hold (a value derived from) the state",
+                                  m.key, norm_stmt(e.node), value=v[:120])
     rep.ok("C10.noshadow", "engines", "engines assign no attribute outside their constructors (besides the queue)")
     # the instance view delegates, it stores nothing about activity
     inst = ctx.p.cls("InstanceState")
